@@ -14,6 +14,76 @@ import numpy as np
 import core
 from core import f2h, h2f
 
+RULE = ("scenes of two colliders drawn from one PRNG: every ordered pair of the 11 collider types (sphere, capsule, box, "
+        "ellipsoid, cylinder, cone, disk, ellipse, MeshGraph, ConvexHullVertices, Margin) x placement; lattice stream 'L' "
+        "(sizes from {0.5,1,2,4}, signed axis permutations / 3-4-5 rotations, placements touching / axis-aligned gap / "
+        "nested / identical / coplanar / overlapping), general stream 'G' (sizes log-uniform in [1e-2,1e2], moderate or "
+        "independent 'wild' aspect ratios, random rotations, gap / near / far / deep / nested / identical / grazing), "
+        "constructed closed forms (sphere-sphere, sphere-box, capsule-sphere, box-box), overlapping pairs with a common "
+        "interior point; each scene is run through gjk_distance_original and gjk_nesterov_accelerated[_primitives] with "
+        "use_nesterov_acceleration in {False, True}; non-trivial = both colliders well-formed and the scene evaluated; "
+        "distinct = distinct pair of collider specs")
+EXPLANATION = ("search: each result is judged against a certificate interval [lower, upper] of the true distance built "
+               "from the harness's own closed-form support values (weak duality along the candidate normals) and own "
+               "membership tests (upper bound |a-b| + distance of a, b to their colliders), candidates taken from "
+               "gjk_distance_jolt and the original GJK; required |d - truth| <= 1e-3*L, original GJK's points on their "
+               "colliders and |a-b| = d within 1e-3*L, finite values, no exception, helpers = plain calls. "
+               "correspondence: the Lean model (D3.Model.Nesterov, D3.Model.GjkOrig) is compared with the implementation "
+               "on the five specialised support functions of both modules, the support dispatch, the three simplex "
+               "projections of both modules (lattice inputs in exact rational arithmetic), nondecreasing_ordered_indices, "
+               "and - step by step - on recorded runs of both Nesterov loops and of the original GJK main loop (model "
+               "answered from the recorded support / sub-algorithm calls: every queried direction, the simplex handed to "
+               "the sub-algorithm, exit, inside, distance, iteration count)")
+PARTIAL = {
+    "cv_exit_accuracy_loop": "loop-level accuracy of the convergence exit assumes `ProjOK` (every simplex projection returns "
+                             "a point of A-B); proved for project_line_origin under the un-accelerated precondition "
+                             "(projectLineOrigin_sound), NOT proved for project_triangle_origin / project_tetra_to_origin and "
+                             "false with acceleration (projectLineOrigin_extrapolates_counterexample) and for "
+                             "project_tetra_to_origin even in the un-accelerated iteration (projectTetraToOrigin_asIs_counterexample, finding F-nesterov-tetra-region)",
+    "momentum branch": "the accelerated search direction is covered only by omega_lower_bound (valid for every direction) and "
+                       "by cv_exit_only_unaccelerated (the convergence exit is taken with acceleration off); convergence / "
+                       "iteration-cap behaviour of the accelerated iteration is not proved (finding F-nesterov-cap-zero)",
+    "orig_feasible": "the invariant `Consistent` (cached vertices lie in A resp. B, simplex points are their differences) and the "
+                     "sub-algorithm contract (non-negative weights of sum 1, v = sum w_i y_i, |v|^2) are hypotheses: Johnson's "
+                     "sub-algorithm is a parameter of the main-loop model (its backup procedure is C18's model); preservation "
+                     "of the invariant by the loop is checked by the trace correspondence, not proved",
+    "orig_no_improvement_optimal": "full optimality of the original GJK: only the `no_improvement` exit is proved optimal, given "
+                                   "that the sub-algorithm returns the min-norm point of the extended simplex; the tetrahedron "
+                                   "exit is covered by orig_feasible (midpoint within |v|/2); termination is C19",
+    "float effects": "all theorems are at exact real arithmetic; F-orig-degenerate-tetra-zero is a rounding defect (absolute "
+                     "EPSILON on cofactors) with no counterpart in the exact model",
+}
+ASSUMPTIONS = [
+    "L = max(1, feature sizes of both colliders (radii, heights, lengths, edge sizes, vertex spread, margin), distance of the "
+    "two collider centres)",
+    "MeshGraph / ConvexHullVertices scenes use convex vertex sets (random points on an ellipsoid, tetrahedron, octahedron, cube)",
+    "the acceleration flag is exercised through gjk_nesterov_accelerated(..., use_nesterov_acceleration=True) and "
+    "gjk_nesterov_accelerated_primitives(..., use_nesterov_acceleration=True); the *_distance entry points only expose False",
+]
+TRUSTED = [
+    "oracle of harness/props/c09.py: closed-form support values and membership tests per collider type (hull membership by an "
+    "explicit convex combination from scipy.optimize.nnls); gjk_distance_jolt only proposes candidate points, which are "
+    "verified before they bound anything",
+    "classification of recorded defects: mechanism signature observed on the failing run (wrapping module-level functions) + "
+    "for the loop / projection defects the faithful Lean model must reproduce the run from the recorded support answers",
+    "Johnson's distance sub-algorithm of _gjk_original.py is a parameter of the main-loop model (C18 models its backup procedure)",
+]
+MANIFEST = dict(
+    text=("Lean theorems on faithful models of gjk_nesterov_accelerated[_primitives] and of the main loop of "
+          "gjk_distance_original: weak duality (omega is a lower bound for every search direction), accuracy of the "
+          "duality-gap exit, the set-level inflation identity, loop-level accuracy under the projection contract, "
+          "fall-back of the acceleration, iteration-cap exit, feasibility and no-improvement optimality of the original GJK, "
+          "plus as-is counterexamples for the double-counted inflation and the extrapolating 2-point projection; the models "
+          "are compared step by step with recorded runs of the implementation; an independent certificate oracle searches "
+          "all ordered collider-type pairs x both acceleration flags for failing inputs; five recorded defects are replayed."),
+    note=("trusted: Lean kernel + Mathlib (axioms propext/Classical.choice/Quot.sound), exact-real semantics, the "
+          "correspondence harness (sampling), the oracle; partial: projection soundness for 3/4-point simplices, the momentum "
+          "iteration, the Johnson sub-algorithm (parameter), float effects; known findings are attached only to their "
+          "narrowly defined class (algorithm, acceleration flag, collider-type class, mechanism signature, model reproduction)."),
+    technique="Lean 4 proof on hand-written model (S2, abstract supports) + trace correspondence + certificate oracle",
+    design="§7 C09")
+LEAN_TARGETS = []
+
 TOL = 1e-3          # the property's tolerance factor (times L)
 TIGHT = 1e-6        # the certificate interval is called tight below TIGHT * L
 
@@ -596,8 +666,10 @@ def call_alg(alg, sa, sb, trace=True):
         acc = alg.endswith("1")
         mod = N if alg.startswith("nest") else Pm
         fn = N.gjk_nesterov_accelerated if alg.startswith("nest") else Pm.gjk_nesterov_accelerated_primitives
-        cnt = {"extrap": 0}
-        seg0, tri0 = mod.origin_to_segment, mod.origin_to_triangle
+        cnt = {"extrap": 0, "extrap_tetra": 0, "in_tetra": False}
+        trace_log = []
+        seg0, tri0, tet0, sup0 = mod.origin_to_segment, mod.origin_to_triangle, mod.project_tetra_to_origin, \
+            mod.support_function
 
         def seg(simplex, a, b, ab, ab_dot_a0):
             den = float(ab.dot(ab))
@@ -605,6 +677,8 @@ def call_alg(alg, sa, sb, trace=True):
                 t = float(ab_dot_a0) / den
                 if t > 1.0 + 1e-9 or t < -1e-9:
                     cnt["extrap"] += 1
+                    if cnt["in_tetra"]:
+                        cnt["extrap_tetra"] += 1
             return seg0(simplex, a, b, ab, ab_dot_a0)
 
         def tri(simplex, a, b, c, abc, abc_dot_a0):
@@ -612,10 +686,29 @@ def call_alg(alg, sa, sb, trace=True):
             bc = _bary3(np.zeros(3), a_, b_, c_)
             if bc is not None and min(bc) < -1e-9:
                 cnt["extrap"] += 1
+                if cnt["in_tetra"]:
+                    cnt["extrap_tetra"] += 1
             return tri0(simplex, a, b, c, abc, abc_dot_a0)
-        with _Patch(mod, **({"origin_to_segment": seg, "origin_to_triangle": tri} if trace else {})):
+
+        def tet(tetra):
+            cnt["in_tetra"] = True
+            try:
+                return tet0(tetra)
+            finally:
+                cnt["in_tetra"] = False
+
+        def sup(d, *rest):
+            r = sup0(d, *rest)
+            trace_log.append((np.array(d, dtype=float), np.array(r[0], dtype=float), np.array(r[1], dtype=float)))
+            return r
+        patches = {"origin_to_segment": seg, "origin_to_triangle": tri, "project_tetra_to_origin": tet,
+                   "support_function": sup} if trace else {}
+        with _Patch(mod, **patches):
             inside, dist, simplex, it = fn(A, B, use_nesterov_acceleration=acc)
         notes["extrap"] = cnt["extrap"]
+        notes["extrap_tetra"] = cnt["extrap_tetra"]
+        notes["trace"] = trace_log
+        notes["simplex"] = np.array(simplex, dtype=float)
         return {"ok": True, "d": max(float(dist), 0.0), "raw": float(dist), "inside": bool(inside), "it": int(it),
                 "notes": notes}
     except Exception as e:  # noqa
@@ -648,3 +741,859 @@ def reference_points(sa, sb):
     except Exception:  # noqa
         pass
     return out
+
+
+# ============================================================================ oracle
+FINDINGS = {
+    "A": "F-nesterov-inflation-generic",
+    "B": "F-nesterov-cap-zero",
+    "C": "F-nesterov-accel-projection",
+    "D": "F-orig-degenerate-tetra-zero",
+    "E": "F-nesterov-tetra-region",
+}
+MAX_ITER = 128
+
+
+def inflation_of(sa, sb):
+    return sum(float(s["radius"]) for s in (sa, sb) if s["type"] in INFLATED)
+
+
+def mixed_inflated_generic(sa, sb):
+    ta, tb = sa["type"], sb["type"]
+    return (ta in INFLATED and tb in GENERIC) or (tb in INFLATED and ta in GENERIC)
+
+
+def classify(alg, sa, sb, r, lo, up, L):
+    """-> (finding id or None, needs_model). Each class is an (algorithm, acceleration flag,
+    collider-type class) together with a mechanism signature observed on the failing run itself;
+    classes B, C and E additionally require that the faithful Lean model, fed with the support
+    answers recorded from this very run, reproduces the implementation's result (`needs_model`):
+    then the wrong answer is the as-is behaviour of the modelled loop and projections, not
+    something else. Anything else stays unclassified and is reported as a VIOLATION."""
+    if not r.get("ok"):
+        return None, False
+    n = r.get("notes", {})
+    tol = TOL * L
+    if alg == "orig":
+        # D: a 4-point simplex is reported as an intersection (d = 0, common midpoint) although the
+        # two points computed from the weights are more than the tolerance apart
+        if r["d"] == 0.0 and "pre" in n and float(np.linalg.norm(r["a"] - r["b"])) == 0.0 \
+                and float(np.linalg.norm(n["pre"][0] - n["pre"][1])) > tol:
+            return FINDINGS["D"], False
+        return None, False
+    if not math.isfinite(r["d"]):
+        return None, False
+    # B: acceleration on, iteration cap reached, the initial distance 0.0 is returned
+    if alg in ("nest1", "prim1") and r["it"] >= MAX_ITER and r["raw"] == 0.0 and not r["inside"] and lo > tol:
+        return FINDINGS["B"], True
+    # A: sphere / capsule against a collider with generic support: result = truth - inflation
+    if alg in ("nest0", "nest1") and mixed_inflated_generic(sa, sb):
+        infl = inflation_of(sa, sb)
+        want_lo, want_up = max(0.0, lo - infl), max(0.0, up - infl)
+        if want_lo - tol <= r["d"] <= want_up + tol:
+            return FINDINGS["A"], False
+    # C: acceleration on and a projection returned a point outside the simplex
+    if alg in ("nest1", "prim1") and n.get("extrap", 0) > 0 and r["it"] < MAX_ITER:
+        return FINDINGS["C"], True
+    # E: acceleration off, project_tetra_to_origin selected a region whose foot point lies outside it
+    if alg in ("nest0", "prim0") and n.get("extrap_tetra", 0) > 0 and n.get("extrap", 0) == n.get("extrap_tetra", 0) \
+            and r["it"] < MAX_ITER:
+        return FINDINGS["E"], True
+    return None, False
+
+
+def judge(sc, results=None, want_cands=False):
+    """run every accepted algorithm on the scene and judge it; -> list of failure dicts
+    (alg, kind, observed, expected, finding) and the truth interval"""
+    sa, sb = sc["a"], sc["b"]
+    L = scene_L(sa, sb)
+    tol = TOL * L
+    res = results or {}
+    if "orig" not in res:
+        res["orig"] = call_alg("orig", sa, sb)
+    cands = reference_points(sa, sb)
+    ro = res["orig"]
+    if ro.get("ok") and np.all(np.isfinite(ro["a"])) and np.all(np.isfinite(ro["b"])):
+        cands.append((ro["a"], ro["b"]))
+        if "pre" in ro["notes"]:
+            cands.append(tuple(ro["notes"]["pre"]))
+    for extra in sc.get("witness_points", []):
+        cands.append((np.array(extra, dtype=float), np.array(extra, dtype=float)))
+    lo, up = truth_interval(sa, sb, cands)
+    if "truth" in sc:     # constructed closed form: must lie in the certificate interval (self-check)
+        t = float(sc["truth"])
+        if not (lo - 1e-9 * L <= t <= up + 1e-9 * L):
+            return [{"alg": "oracle", "kind": "oracle-inconsistent", "observed": [lo, up], "expected": t,
+                     "finding": None}], (lo, up, L)
+        lo, up = max(lo, t - 1e-12 * L), min(up, t + 1e-12 * L)
+    fails = []
+    for alg in ALGS:
+        if not accepts(alg, sa, sb):
+            continue
+        if alg not in res:
+            res[alg] = call_alg(alg, sa, sb)
+        r = res[alg]
+        kind = None
+        obs = None
+        if not r["ok"]:
+            kind, obs = "exception", "%s: %s" % (r["err"], r["msg"])
+        elif not math.isfinite(r["d"]) or (alg == "orig" and not (np.all(np.isfinite(r["a"])) and np.all(np.isfinite(r["b"])))):
+            kind, obs = "non-finite", str(r["d"])
+        elif r["d"] < lo - tol:
+            kind, obs = "distance-too-small", r["d"]
+        elif r["d"] > up + tol:
+            kind, obs = "distance-too-large", r["d"]
+        elif alg == "orig":
+            ea, eb = excess(sa, r["a"]), excess(sb, r["b"])
+            dab = float(np.linalg.norm(r["a"] - r["b"]))
+            if ea > tol or eb > tol:
+                kind, obs = "point-off-collider", [ea, eb]
+            elif abs(dab - r["d"]) > tol:
+                kind, obs = "|a-b| != d", [dab, r["d"]]
+        if kind:
+            fid, needs = classify(alg, sa, sb, r, lo, up, L)
+            fails.append({"alg": alg, "kind": kind, "observed": obs, "expected": [lo, up],
+                          "finding": fid, "needs_model": needs, "run": r})
+    return fails, (lo, up, L)
+
+
+def confirm_with_model(pending, tag="c09-confirm"):
+    """pending: list of (scene, fail). For failures whose class needs it, replay the recorded support
+    trace through the Lean model; drop the finding id unless the model reproduces the run."""
+    todo = [(sc, f) for sc, f in pending if f.get("needs_model") and f.get("finding")]
+    if not todo:
+        return
+    try:
+        drv = core.Driver(tag)
+        ids = []
+        for sc, f in todo:
+            ids.append(drv.add("C09.trace", "F", trace_tokens(f["alg"], sc["a"], sc["b"], f["run"]["notes"]["trace"])))
+        out = drv.run()
+    except core.Infra:
+        raise          # the model driver is infrastructure: exit 2, never a VIOLATION
+    for (sc, f), cid in zip(todo, ids):
+        m = parse_trace_out(out.get(cid, "bad missing"))
+        okm, why = model_reproduces(f["run"], m, scene_L(sc["a"], sc["b"]))
+        if not okm:
+            f["model_note"] = "faithful model does not reproduce this run (%s): not the recorded defect" % why
+            f["finding"] = None
+        else:
+            f["model_note"] = "faithful model reproduces the run (exit %d)" % m["exit"]
+
+
+# ============================================================================ closed-form scenes
+def closed_form_scene(rng, stream):
+    """scene with a constructed distance: sphere–sphere, sphere–box (box axis-aligned in its own frame,
+    common rotation), capsule–sphere, box–box axis-aligned. -> scene dict with 'truth'."""
+    kind = rng.choice(["ss", "sb", "cs", "bb"])
+    if stream == "L":
+        pick = lambda: rng.choice([0.5, 1.0, 2.0, 4.0])  # noqa
+        R = lattice_rot(rng)
+        c = np.array([rng.choice([-2.0, 0.0, 1.0, 3.0]) for _ in range(3)])
+        off = lambda: rng.choice([-8.0, -4.0, -2.0, -1.0, -0.5, 0.0, 0.5, 1.0, 2.0, 4.0, 8.0])  # noqa
+    else:
+        s = 10 ** rng.uniform(-2, 2)
+        pick = lambda: min(100.0, max(0.01, s * rng.uniform(0.5, 2.0)))  # noqa
+        R = rand_rot(rng)
+        c = np.array([rng.uniform(-50, 50) for _ in range(3)])
+        off = lambda: s * rng.choice([-1, 1]) * 10 ** rng.uniform(-2, 1.3)  # noqa
+    order = rng.random() < 0.5
+    if kind == "ss":
+        r1, r2 = pick(), pick()
+        v = np.array([off(), off(), off()])
+        a = {"type": "sphere", "center": c.tolist(), "radius": r1}
+        b = {"type": "sphere", "center": (c + v).tolist(), "radius": r2}
+        truth = max(0.0, float(np.linalg.norm(v)) - r1 - r2)
+    elif kind == "sb":
+        r1 = pick()
+        size = [pick(), pick(), pick()]
+        q = np.array([off(), off(), off()])     # sphere centre in the box frame
+        a = {"type": "sphere", "center": (c + R.dot(q)).tolist(), "radius": r1}
+        b = {"type": "box", "pose": _pose(R, c).tolist(), "size": size}
+        ex = math.sqrt(sum(max(0.0, abs(q[i]) - 0.5 * size[i]) ** 2 for i in range(3)))
+        truth = max(0.0, ex - r1)
+    elif kind == "cs":
+        r1, h, r2 = pick(), pick(), pick()
+        q = np.array([off(), off(), off()])
+        a = {"type": "capsule", "pose": _pose(R, c).tolist(), "radius": r1, "height": h}
+        b = {"type": "sphere", "center": (c + R.dot(q)).tolist(), "radius": r2}
+        dseg = _seg_dist(q, np.array([0, 0, -0.5 * h]), np.array([0, 0, 0.5 * h]))
+        truth = max(0.0, dseg - r1 - r2)
+    else:
+        s1, s2 = [pick(), pick(), pick()], [pick(), pick(), pick()]
+        q = np.array([off(), off(), off()])
+        a = {"type": "box", "pose": _pose(R, c).tolist(), "size": s1}
+        b = {"type": "box", "pose": _pose(R, c + R.dot(q)).tolist(), "size": s2}
+        truth = math.sqrt(sum(max(0.0, abs(q[i]) - 0.5 * (s1[i] + s2[i])) ** 2 for i in range(3)))
+    if order:
+        a, b = b, a
+    return {"a": a, "b": b, "placement": "closed-" + kind, "stream": stream, "truth": truth}
+
+
+def overlap_scene(rng, ta, tb):
+    """two colliders sharing a point that is delta-deep in both (truth 0)"""
+    scale = 10 ** rng.uniform(-1.5, 1.5)
+    sha, shb = gen_shape(rng, ta, "G", scale), gen_shape(rng, tb, "G", scale)
+    Ra, Rb = rand_rot(rng), rand_rot(rng)
+    p = np.array([rng.uniform(-50, 50) for _ in range(3)])
+    a = place_centred(sha, Ra, p)
+    b = place_centred(shb, Rb, p)
+    # the centres of solid shapes are interior; flat shapes (disk, ellipse) contain their centre
+    return {"a": a, "b": b, "placement": "overlap-centre", "stream": "G", "witness_points": [p.tolist()]}
+
+
+# ============================================================================ encoding for the Lean driver
+KIND = {"sphere": 0, "capsule": 1, "box": 2, "ellipsoid": 3, "cylinder": 4}
+
+
+def enc_v(v):
+    return [f2h(x) for x in np.asarray(v, dtype=float).reshape(-1)]
+
+
+def enc_vq(v):
+    from fractions import Fraction
+    return [core.q2s(Fraction(float(x))) for x in np.asarray(v, dtype=float).reshape(-1)]
+
+
+def coll_tokens(spec, data=None, enc=enc_v):
+    """kind data radius (data as `get_data_from_collider` builds it; taken from the library when given)"""
+    t = spec["type"]
+    k = KIND.get(t, 5)
+    if data is None:
+        if t == "capsule":
+            data = [spec["height"] / 2, 0, 0]
+        elif t == "box":
+            data = (np.array(spec["size"], dtype=float) / 2).tolist()
+        elif t == "ellipsoid":
+            data = [r * r for r in spec["radii"]]
+        elif t == "cylinder":
+            data = [spec["length"] / 2, spec["radius"], 0]
+        else:
+            data = [0, 0, 0]
+    radius = float(spec["radius"]) if t in INFLATED else 0.0
+    return [str(k)] + enc(data) + enc([radius])
+
+
+def nest_defaults(alg):
+    import inspect
+    from distance3d.gjk import _gjk_nesterov_accelerated as N, _gjk_nesterov_accelerated_primitives as Pm
+    fn = N.gjk_nesterov_accelerated if alg.startswith("nest") else Pm.gjk_nesterov_accelerated_primitives
+    p = inspect.signature(fn).parameters
+    return int(p["max_interations"].default), float(p["upper_bound"].default), float(p["tolerance"].default)
+
+
+def trace_tokens(alg, sa, sb, trace, enc=enc_v):
+    maxit, ub, tol = nest_defaults(alg)
+    infl = 0.0
+    for s in (sa, sb):            # same order of additions as the code: 0.0 + r0 + r1
+        if s["type"] in INFLATED:
+            infl += float(s["radius"])
+    normalize = alg.startswith("nest") and sa["type"] == "mesh" and sb["type"] == "mesh"
+    t = [str(maxit)] + enc([ub + infl, tol, infl]) + ["1" if normalize else "0", "1" if alg.endswith("1") else "0",
+                                                      str(len(trace))]
+    for d, s0, s1 in trace:
+        t += enc(s0) + enc(s1)
+    return t
+
+
+def parse_trace_out(out, dec=h2f):
+    """-> dict(exit, inside, distance, iters, len, queries) or dict(err=...)"""
+    parts = out.split()
+    if not parts or parts[0] != "ok":
+        return {"err": out}
+    ex, inside, dist, iters, ln, nq = int(parts[1]), parts[2] == "1", dec(parts[3]), int(parts[4]), int(parts[5]), \
+        int(parts[6])
+    q = [dec(x) for x in parts[7:7 + 3 * nq]]
+    return {"exit": ex, "inside": inside, "distance": dist, "iters": iters, "len": ln,
+            "queries": np.array(q, dtype=float).reshape(-1, 3)}
+
+
+def qdec(s):
+    return float(core.s2q(s))
+
+
+def model_reproduces(r, m, scale):
+    """does the model run `m` (answers from the recorded trace) reproduce the implementation run `r`?"""
+    if "err" in m:
+        return False, "model: " + m["err"][:80]
+    tr = r["notes"]["trace"]
+    if len(m["queries"]) != len(tr):
+        return False, "support calls: impl %d model %d" % (len(tr), len(m["queries"]))
+    for k, (d, _, _) in enumerate(tr):
+        if float(np.max(np.abs(m["queries"][k] - d))) > 1e-9 * max(1.0, scale, float(np.max(np.abs(d)))):
+            return False, "query %d: impl %s model %s" % (k, d.tolist(), m["queries"][k].tolist())
+    if m["inside"] != r["inside"] or m["iters"] != r["it"]:
+        return False, "inside/iterations: impl (%s, %d) model (%s, %d)" % (r["inside"], r["it"], m["inside"], m["iters"])
+    if abs(m["distance"] - r["raw"]) > 1e-9 * max(1.0, scale):
+        return False, "distance: impl %r model %r" % (r["raw"], m["distance"])
+    return True, ""
+
+
+# ============================================================================ correspondence
+def _close(a, b, scale):
+    a = np.asarray(a, dtype=float).reshape(-1)
+    b = np.asarray(b, dtype=float).reshape(-1)
+    if a.shape != b.shape:
+        return False
+    both_nan = np.isnan(a) & np.isnan(b)
+    d = np.abs(a - b)
+    d[both_nan] = 0.0
+    return bool(np.all(d <= 1e-9 * max(1.0, scale)))
+
+
+def _dirs(rng, stream):
+    if stream == "L":
+        return np.array([rng.choice([-2.0, -1.0, 0.0, 0.0, 1.0, 0.5]) for _ in range(3)])
+    return np.array([rng.gauss(0, 1) for _ in range(3)]) * 10 ** rng.uniform(-2, 2)
+
+
+def corr_select(ctx):
+    """sphere/capsule/box/ellipsoid/cylinder_support of both modules vs the model"""
+    from distance3d.gjk import _gjk_nesterov_accelerated as N, _gjk_nesterov_accelerated_primitives as Pm
+    drv = core.Driver("c09-select")
+    plan = []
+    for k in range(ctx.budget(400, 6000)):
+        stream = "L" if ctx.rng.random() < 0.5 else "G"
+        typ = ctx.rng.choice(SPECIAL)
+        spec = place(gen_shape(ctx.rng, typ, stream), np.eye(3), np.zeros(3))
+        col = mk(spec)
+        d = _dirs(ctx.rng, stream)
+        data, code = Pm.get_data_from_collider(col)
+        import warnings
+        with warnings.catch_warnings():
+            warnings.simplefilter("ignore")
+            sn, found = N.select_support(d.copy(), col)
+            sp = Pm.select_support(d.copy(), code, np.array(data, dtype=float))
+        cid = drv.add("C09.select", "F", coll_tokens(spec, data) + enc_v(d))
+        plan.append((stream, typ, spec, d, code, np.array(sn), bool(found), np.array(sp), cid))
+    out = drv.run()
+    for stream, typ, spec, d, code, sn, found, sp, cid in plan:
+        ctx.count("select:" + stream, key=("sel", typ, tuple(d), str(spec)), nontrivial=bool(np.any(d != 0)),
+                  sample={"fn": "select_support", "type": typ, "dir": d.tolist()})
+        o = out.get(cid, "bad missing").split()
+        scale = max(feature_sizes(spec))
+        if code != KIND[typ] or not found:
+            ctx.broke("correspondence", "get_data_from_collider/select_support",
+                      "type code %s found %s for %s" % (code, found, typ), {"spec": spec})
+            continue
+        if o[0] == "err":
+            ctx.branch("select", typ + "/err")
+            if not (np.any(np.isnan(sn)) and np.any(np.isnan(sp))):
+                ctx.broke("correspondence", "select_support(%s)" % typ, "model %s, impl %s / %s" % (o, sn, sp),
+                          {"spec": spec, "dir": d.tolist()})
+            continue
+        ctx.branch("select", typ)
+        mv = [h2f(x) for x in o[2:5]]
+        if o[1] != "1" or not _close(mv, sn, scale) or not _close(mv, sp, scale):
+            ctx.broke("correspondence", "select_support(%s)" % typ,
+                      "model %s nesterov %s primitives %s" % (mv, sn.tolist(), sp.tolist()),
+                      {"spec": spec, "dir": d.tolist()})
+
+
+def corr_dispatch(ctx):
+    """support_function: which pairs get the core supports, which the generic ones; the pair itself for
+    specialised colliders (both modules), the inflation the model derives from the collider types"""
+    from distance3d.gjk import _gjk_nesterov_accelerated as N, _gjk_nesterov_accelerated_primitives as Pm
+    drv = core.Driver("c09-supp")
+    plan = []
+    pairs = [(a, b) for a in ALLTYPES for b in ALLTYPES]
+    reps = ctx.budget(2, 20)
+    import warnings
+    for ta, tb in pairs:
+        for _ in range(reps):
+            stream = "L" if ctx.rng.random() < 0.4 else "G"
+            sc = gen_scene(ctx.rng, ta, tb, stream)
+            sa, sb = sc["a"], sc["b"]
+            A, B = mk(sa), mk(sb)
+            d = _dirs(ctx.rng, stream)
+            if not np.any(d != 0):
+                d = np.array([1.0, 0.0, 0.0])
+            flags = []
+            sel0 = N.select_support
+
+            def sel(dd, c):
+                r = sel0(dd, c)
+                flags.append(bool(r[1]))
+                return r
+            with warnings.catch_warnings():
+                warnings.simplefilter("ignore")
+                with _Patch(N, select_support=sel):
+                    s0, s1 = N.support_function(d.copy(), A, B)
+                both = sa["type"] in SPECIAL and sb["type"] in SPECIAL
+                md = None
+                if both:
+                    md = Pm.get_minkowski_diff(A, B)
+                    p0, p1 = Pm.support_function(d.copy(), md)
+            if both:
+                toks = coll_tokens(sa, md[1]) + coll_tokens(sb, md[3]) + enc_v(md[4]) + enc_v(md[5]) + enc_v(d)
+            else:
+                toks = coll_tokens(sa) + coll_tokens(sb) + enc_v(np.eye(3)) + enc_v(np.zeros(3)) + enc_v(d)
+            cid = drv.add("C09.supp", "F", toks)
+            plan.append((sc, d, flags, np.array(s0), np.array(s1), (np.array(p0), np.array(p1)) if both else None, cid))
+    out = drv.run()
+    for sc, d, flags, s0, s1, prim, cid in plan:
+        sa, sb = sc["a"], sc["b"]
+        ta, tb = sa["type"], sb["type"]
+        ctx.count("dispatch:" + sc["stream"], key=("disp", str(sc), tuple(d)),
+                  sample={"fn": "support_function", "pair": [ta, tb], "dir": d.tolist()})
+        o = out.get(cid, "bad missing").split()
+        impl_branch = 0 if (len(flags) == 2 and flags[0] and flags[1]) else 1
+        if o[0] == "err":
+            if not np.any(np.isnan(np.concatenate([s0, s1]))):
+                ctx.broke("correspondence", "support_function", "model %s impl %s %s" % (o, s0, s1), {"scene": sc})
+            continue
+        ctx.branch("dispatch", "%d" % int(o[1]))
+        if int(o[1]) != impl_branch:
+            ctx.broke("correspondence", "support_function dispatch",
+                      "pair (%s, %s): model branch %s, implementation found flags %s" % (ta, tb, o[1], flags), {"scene": sc})
+            continue
+        if abs(h2f(o[2]) - inflation_of(sa, sb)) > 0:
+            ctx.broke("correspondence", "inflation", "model %r, radii of sphere/capsule colliders %r"
+                      % (h2f(o[2]), inflation_of(sa, sb)), {"scene": sc})
+        if impl_branch == 0:
+            L = scene_L(sa, sb)
+            m0 = [h2f(x) for x in o[3:6]]
+            m1 = [h2f(x) for x in o[6:9]]
+            if not (_close(m0, s0, L) and _close(m1, s1, L) and _close(m0, prim[0], L) and _close(m1, prim[1], L)):
+                ctx.broke("correspondence", "support_function pair",
+                          "model %s %s nesterov %s %s primitives %s %s" % (m0, m1, s0.tolist(), s1.tolist(),
+                                                                            prim[0].tolist(), prim[1].tolist()),
+                          {"scene": sc, "dir": d.tolist()})
+        else:
+            # generic fall-back: both world-frame supports, the sphere's one includes its radius
+            for spec, p, dd in ((sa, s0, d), (sb, s1, -d)):
+                if abs(float(np.dot(dd, p)) - hval(spec, dd)) > 1e-6 * scene_L(sa, sb) * max(1.0, float(np.linalg.norm(dd))):
+                    # MeshGraph hill climbing and its epsilon are C03's business: only exact types are checked
+                    if spec["type"] not in ("mesh",):
+                        ctx.broke("correspondence", "generic support in fall-back",
+                                  "support value %r vs own %r for %s" % (float(np.dot(dd, p)), hval(spec, dd), spec["type"]),
+                                  {"scene": sc, "dir": d.tolist()})
+
+
+def corr_proj(ctx):
+    """project_line_origin / project_triangle_origin / project_tetra_to_origin of both modules vs the model
+    (lattice inputs in exact rational arithmetic, general inputs in floats)"""
+    from distance3d.gjk import _gjk_nesterov_accelerated as N, _gjk_nesterov_accelerated_primitives as Pm
+    names = {2: "project_line_origin", 3: "project_triangle_origin", 4: "project_tetra_to_origin"}
+    drv = core.Driver("c09-proj")
+    plan = []
+    import warnings
+    for k in range(ctx.budget(1500, 30000)):
+        n = ctx.rng.choice([2, 3, 3, 4, 4, 4])
+        stream = "L" if ctx.rng.random() < 0.6 else "G"
+        if stream == "L":
+            pts = np.array([[ctx.rng.choice([-2.0, -1.0, 0.0, 1.0, 1.0, 2.0, 3.0]) for _ in range(3)] for _ in range(n)])
+        else:
+            c = np.array([ctx.rng.gauss(0, 1) for _ in range(3)]) * ctx.rng.choice([0.0, 0.5, 2.0])
+            pts = np.array([[ctx.rng.gauss(0, 1) for _ in range(3)] for _ in range(n)]) + c
+            pts *= 10 ** ctx.rng.uniform(-2, 2)
+        res = []
+        for mod in (N, Pm):
+            arr = np.zeros((4, 3))
+            arr[:n] = pts
+            with warnings.catch_warnings():
+                warnings.simplefilter("ignore")
+                ray, ln, inside = getattr(mod, names[n])(arr)
+            res.append((np.array(ray, dtype=float), int(ln), bool(inside), arr[:min(int(ln), 4)].copy()))
+        if stream == "L":
+            cid = drv.add("C09.proj", "Q", [str(n)] + enc_vq(pts))
+        else:
+            cid = drv.add("C09.proj", "F", [str(n)] + enc_v(pts))
+        plan.append((stream, n, pts, res, cid))
+    out = drv.run()
+    for stream, n, pts, res, cid in plan:
+        ctx.count("proj:" + stream, key=("proj", n, pts.tobytes()), sample={"fn": names[n], "points": pts.tolist()})
+        o = out.get(cid, "bad missing").split()
+        dec = qdec if stream == "L" else h2f
+        scale = float(np.max(np.abs(pts))) if pts.size else 1.0
+        if o[0] == "err":
+            ctx.branch(names[n], "err:" + o[1])
+            # numpy divides by zero without raising: the implementation's ray is non-finite
+            if not all(np.any(~np.isfinite(r[0])) for r in res):
+                ctx.broke("correspondence", names[n], "model %s, impl %s" % (o, [r[0].tolist() for r in res]),
+                          {"points": pts.tolist()})
+            continue
+        ctx.branch(names[n], o[1])
+        ln, inside = int(o[2]), o[3] == "1"
+        ray = [dec(x) for x in o[4:7]]
+        rows = np.array([dec(x) for x in o[7:7 + 3 * min(ln, 4)]]).reshape(-1, 3)
+        for which, (pr, pl, pi, prow) in zip(("nesterov", "primitives"), res):
+            if pl != ln or pi != inside or not _close(ray, pr, scale) or not _close(rows, prow, scale):
+                ctx.broke("correspondence", names[n] + " (" + which + ")",
+                          "model len %d inside %s ray %s rows %s; impl len %d inside %s ray %s rows %s"
+                          % (ln, inside, ray, rows.tolist(), pl, pi, pr.tolist(), prow.tolist()),
+                          {"points": pts.tolist()})
+                break
+
+
+def corr_order(ctx):
+    from distance3d.gjk import _gjk_original as O
+    drv = core.Driver("c09-order")
+    plan = []
+    for d1, d2, d3 in itertools.product([0.0, 1.0, 2.0, -1.0], repeat=3):
+        si = O.SimplexInfo()
+        si.n_simplex_points = 4
+        si.dot_product_table[:] = 0.0
+        si.dot_product_table[1, 0], si.dot_product_table[2, 0], si.dot_product_table[3, 0] = d1, d2, d3
+        want = [int(x) for x in si.nondecreasing_ordered_indices()]
+        plan.append((d1, d2, d3, want, drv.add("C09.order", "F", enc_v([d1, d2, d3]))))
+    out = drv.run()
+    for d1, d2, d3, want, cid in plan:
+        ctx.count("order:L", key=("order", d1, d2, d3))
+        got = out.get(cid, "bad").split()
+        if got[0] != "ok" or [int(x) for x in got[1:]] != want:
+            ctx.broke("correspondence", "nondecreasing_ordered_indices", "model %s impl %s" % (got, want),
+                      {"d": [d1, d2, d3]})
+
+
+def exit_of(r, infl):
+    """the exit the implementation took, where it can be read off the returned values"""
+    if r["it"] >= MAX_ITER and r["raw"] == 0.0 and not r["inside"]:
+        return 5
+    if r["inside"] and r["raw"] == -infl - 1.0:
+        return 4
+    if r["inside"] and r["raw"] == -infl and infl != 0.0:
+        return 1
+    return None
+
+
+def corr_trace(ctx, scenes):
+    """main loops of the two Nesterov modules: the model is run with its support calls answered from
+    the recorded run; every queried direction, the exit, inside, distance and iteration count must agree"""
+    drv = core.Driver("c09-trace")
+    plan = []
+    for sc in scenes:
+        sa, sb = sc["a"], sc["b"]
+        for alg in ("nest0", "nest1", "prim0", "prim1"):
+            if not accepts(alg, sa, sb):
+                continue
+            import warnings
+            with warnings.catch_warnings():
+                warnings.simplefilter("ignore")
+                r = call_alg(alg, sa, sb)
+            if not r["ok"]:
+                continue       # exceptions are the oracle's business
+            tr = r["notes"]["trace"]
+            cid = drv.add("C09.trace", "F", trace_tokens(alg, sa, sb, tr))
+            plan.append((sc, alg, r, cid))
+    out = drv.run()
+    redo = []
+    for sc, alg, r, cid in plan:
+        sa, sb = sc["a"], sc["b"]
+        ctx.count("trace:" + sc["stream"], key=("trace", alg, str(sa), str(sb)),
+                  sample={"fn": alg, "pair": [sa["type"], sb["type"]], "placement": sc.get("placement")})
+        m = parse_trace_out(out.get(cid, "bad missing"))
+        # numpy divides by zero silently (omega = x / |0|, ellipsoid support 0/0): such runs carry NaN/inf or a
+        # zero search direction; the model reports them as divZero
+        nan_run = (any(np.any(~np.isfinite(x)) for t in r["notes"]["trace"] for x in t) or not math.isfinite(r["raw"])
+                   or any(float(np.linalg.norm(t[0])) == 0.0 for t in r["notes"]["trace"]))
+        if "err" in m:
+            ctx.branch(alg, "err")
+            # numpy divides by zero silently (omega = x / 0, ellipsoid support 0/0): the run carries NaN/inf
+            if not nan_run:
+                ctx.broke("correspondence", "gjk_nesterov_accelerated (%s)" % alg, "model %s" % m["err"][:100],
+                          {"scene": sc, "alg": alg})
+            continue
+        ctx.branch(alg, "exit%d" % m["exit"])
+        okm, why = model_reproduces(r, m, scene_L(sa, sb))
+        ex = exit_of(r, inflation_of(sa, sb))
+        if okm and ex is not None and ex != m["exit"]:
+            okm, why = False, "exit: impl %d model %d" % (ex, m["exit"])
+        if not okm and not nan_run:
+            # zero-margin decision: the origin lies on the simplex boundary in exact arithmetic (model: exit 4,
+            # origin inside / ray_len == 0) while the floats of the implementation leave a ray of length
+            # < tolerance and exit one iteration later through `ray_len < tolerance` (or vice versa): both report
+            # an intersection; counted as a tie
+            nq = min(len(m["queries"]), len(r["notes"]["trace"]))
+            same_prefix = all(float(np.max(np.abs(m["queries"][k] - r["notes"]["trace"][k][0]))) <=
+                              1e-9 * max(1.0, scene_L(sa, sb)) for k in range(nq))
+            if (same_prefix and m["inside"] and r["inside"] and abs(m["iters"] - r["it"]) <= 1
+                    and abs(len(m["queries"]) - len(r["notes"]["trace"])) <= 1):
+                ctx.extra["trace_ties_touching"] = ctx.extra.get("trace_ties_touching", 0) + 1
+                continue
+            redo.append((sc, alg, r, why))
+    # arbitration in exact rational arithmetic for runs that differ in floats
+    if redo:
+        drv = core.Driver("c09-traceq")
+        ids = [drv.add("C09.trace", "Q", trace_tokens(alg, sc["a"], sc["b"], r["notes"]["trace"], enc=enc_vq))
+               for sc, alg, r, why in redo]
+        out = drv.run()
+        for (sc, alg, r, why), cid in zip(redo, ids):
+            m = parse_trace_out(out.get(cid, "bad missing"), dec=qdec)
+            okq, whyq = model_reproduces(r, m, scene_L(sc["a"], sc["b"]))
+            if okq:
+                ctx.extra["trace_ties"] = ctx.extra.get("trace_ties", 0) + 1
+            else:
+                ctx.broke("correspondence", "gjk_nesterov_accelerated (%s)" % alg,
+                          "float model: %s; exact model: %s" % (why, whyq), {"scene": sc, "alg": alg})
+
+
+def record_orig(sa, sb):
+    """run gjk_distance_original with the sub-algorithm and the support calls recorded"""
+    from distance3d.gjk import _gjk_original as O
+    A, B = mk(sa), mk(sb)
+    subs, supps = [], []
+    sub0, find0 = O.distance_subalgorithm_with_backup_procedure, O._find_new_supporting_point
+
+    def entries(simplex):
+        n = len(simplex)
+        return [(int(simplex.indices_polytope1[k]), int(simplex.indices_polytope2[k]),
+                 np.array(simplex.points[k], dtype=float)) for k in range(n)]
+
+    def sub(simplex, solution, backup=False):
+        before = (entries(simplex), bool(backup))
+        new, bout = sub0(simplex, solution, backup)
+        n = len(simplex)
+        subs.append({"before": before, "w": np.array(new.barycentric_coordinates[:n], dtype=float),
+                     "dir": np.array(new.search_direction, dtype=float), "dsq": float(new.distance_squared),
+                     "after": entries(simplex), "backup": bool(bout)})
+        return new, bout
+
+    def find(c1, c2, simplex, solution):
+        d = np.array(solution.search_direction, dtype=float)
+        find0(c1, c2, simplex, solution)
+        supps.append((d, np.array(c1.vertices_[-1], dtype=float), np.array(c2.vertices_[-1], dtype=float)))
+    v1, v2 = np.array(mk(sa).first_vertex(), dtype=float), np.array(mk(sb).first_vertex(), dtype=float)
+    with _Patch(O, distance_subalgorithm_with_backup_procedure=sub, _find_new_supporting_point=find):
+        d, p1, p2, simplex, it = O.gjk_distance_original(A, B)
+    return {"v1": v1, "v2": v2, "subs": subs, "supps": supps, "d": float(d), "a": np.array(p1, dtype=float),
+            "b": np.array(p2, dtype=float), "it": int(it)}
+
+
+def corr_orig(ctx, scenes):
+    """main loop of gjk_distance_original: sub-algorithm and supports answered from the recorded run; the
+    simplex handed to the sub-algorithm in every iteration, the search directions and the output must agree"""
+    drv = core.Driver("c09-orig")
+    plan = []
+    for sc in scenes:
+        sa, sb = sc["a"], sc["b"]
+        try:
+            rec = record_orig(sa, sb)
+        except Exception:  # noqa
+            continue
+        t = enc_v(rec["v1"]) + enc_v(rec["v2"]) + [str(len(rec["subs"]))]
+        for s in rec["subs"]:
+            t += [str(len(s["w"]))] + enc_v(s["w"]) + enc_v(s["dir"]) + enc_v([s["dsq"]]) + [str(len(s["after"]))]
+            for i1, i2, p in s["after"]:
+                t += [str(i1), str(i2)] + enc_v(p)
+            t += ["1" if s["backup"] else "0"]
+        t += [str(len(rec["supps"]))]
+        for d, p, q in rec["supps"]:
+            t += enc_v(p) + enc_v(q)
+        plan.append((sc, rec, drv.add("C09.orig", "F", t)))
+    out = drv.run()
+    for sc, rec, cid in plan:
+        sa, sb = sc["a"], sc["b"]
+        L = scene_L(sa, sb)
+        ctx.count("orig:" + sc["stream"], key=("orig", str(sa), str(sb)),
+                  sample={"fn": "gjk_distance_original", "pair": [sa["type"], sb["type"]]})
+        o = out.get(cid, "bad missing")
+        if not o.startswith("ok"):
+            ctx.branch("orig", o.split()[0] + ":" + (o.split()[1] if len(o.split()) > 1 else ""))
+            if math.isfinite(rec["d"]):
+                ctx.broke("correspondence", "gjk_distance_original", "model %s" % o[:100], {"scene": sc})
+            continue
+        head, seen = o.split(" ; ", 1) if " ; " in o else (o, "")
+        hp = head.split()
+        branch, dist = int(hp[1]), h2f(hp[2])
+        a = [h2f(x) for x in hp[3:6]]
+        b = [h2f(x) for x in hp[6:9]]
+        its, nq = int(hp[9]), int(hp[10])
+        qs = np.array([h2f(x) for x in hp[11:11 + 3 * nq]]).reshape(-1, 3)
+        ctx.branch("orig", "exit%d" % branch)
+        bad = None
+        if its != rec["it"] or nq != len(rec["supps"]):
+            bad = "iterations/support calls: model %d/%d impl %d/%d" % (its, nq, rec["it"], len(rec["supps"]))
+        elif not (_close(dist, rec["d"], L) and _close(a, rec["a"], L) and _close(b, rec["b"], L)):
+            bad = "output: model %r %s %s impl %r %s %s" % (dist, a, b, rec["d"], rec["a"].tolist(), rec["b"].tolist())
+        else:
+            for k, (d, _, _) in enumerate(rec["supps"]):
+                if not _close(qs[k], d, L):
+                    bad = "search direction %d: model %s impl %s" % (k, qs[k].tolist(), d.tolist())
+                    break
+        if bad is None:
+            calls = [c for c in seen.split(" | ")] if seen.strip() else []
+            if len(calls) != len(rec["subs"]):
+                bad = "sub-algorithm calls: model %d impl %d" % (len(calls), len(rec["subs"]))
+            else:
+                for k, (c, s) in enumerate(zip(calls, rec["subs"])):
+                    cp = c.split()
+                    n, bk = int(cp[0]), cp[1] == "1"
+                    ent, bin_ = s["before"]
+                    if n != len(ent) or bk != bin_:
+                        bad = "call %d: model n=%d backup=%s impl n=%d backup=%s" % (k, n, bk, len(ent), bin_)
+                        break
+                    mod_ent = [(int(cp[2 + 5 * j]), int(cp[3 + 5 * j]), [h2f(x) for x in cp[4 + 5 * j:7 + 5 * j]])
+                               for j in range(n)]
+                    for j in range(n):
+                        i1, i2, p = mod_ent[j]
+                        if (i1, i2) != (ent[j][0], ent[j][1]) or not _close(p, ent[j][2], L):
+                            bad = "call %d point %d: model (%d,%d,%s) impl (%d,%d,%s)" % (
+                                k, j, i1, i2, p, ent[j][0], ent[j][1], ent[j][2].tolist())
+                            break
+                    if bad and n == 4 and mod_ent[0][:2] == ent[0][:2] and \
+                            sorted(e[:2] for e in mod_ent) == sorted(e[:2] for e in ent):
+                        # `nondecreasing_ordered_indices` compares dot products with the newest point; when two of
+                        # them agree to rounding, numpy's dot and the model's left-to-right dot may order them
+                        # differently (the sub-algorithm's answer re-synchronises the next step): a tie
+                        dots = {e[:2]: float(np.dot(e[2], ent[0][2])) for e in ent}
+                        moved = [e[:2] for j, e in enumerate(ent) if mod_ent[j][:2] != e[:2]]
+                        vals = [dots[m_] for m_ in moved]
+                        if max(vals) - min(vals) <= 1e-9 * max(1.0, max(abs(v) for v in dots.values())):
+                            ctx.extra["orig_order_ties"] = ctx.extra.get("orig_order_ties", 0) + 1
+                            bad = None
+                    if bad:
+                        break
+        if bad:
+            ctx.broke("correspondence", "gjk_distance_original main loop", bad, {"scene": sc})
+
+
+def corr_entry(ctx, scenes):
+    """public entry points and *_iterations helpers return the plain call's distance / iteration count"""
+    for sc in scenes:
+        sa, sb = sc["a"], sc["b"]
+        for alg in ("orig", "nest0", "prim0"):
+            if not accepts(alg, sa, sb):
+                continue
+            try:
+                r = call_alg(alg, sa, sb, trace=False)
+                e = call_entry(alg, sa, sb)
+            except Exception:  # noqa
+                continue
+            if not r["ok"]:
+                continue
+            ctx.count("entry:" + sc["stream"], key=("entry", alg, str(sa), str(sb)))
+            same_d = (e[0] == r["d"]) or (math.isnan(e[0]) and math.isnan(r["d"]))
+            if not same_d or e[1] != r["it"]:
+                ctx.fail("entry points / *_iterations (%s)" % alg, {"scene": sc, "alg": alg},
+                         {"entry": list(e), "plain": [r["d"], r["it"]]}, "same distance and iteration count",
+                         "entry point vs plain call on fresh colliders")
+
+
+def scenes_for_corr(ctx, n_per_pair, types=ALLTYPES):
+    out = []
+    for ta in types:
+        for tb in types:
+            for _ in range(n_per_pair):
+                stream = "L" if ctx.rng.random() < 0.5 else "G"
+                out.append(gen_scene(ctx.rng, ta, tb, stream, wild=(stream == "G" and ctx.rng.random() < 0.3)))
+    return out
+
+
+def load_witnesses():
+    out = []
+    for k in core.load_known():
+        if k.get("property") == "C09" and isinstance(k.get("witness"), dict) and "scene" in k["witness"]:
+            out.append((k["id"], k["witness"]))
+        for w in k.get("more_witnesses", []) if k.get("property") == "C09" else []:
+            out.append((k["id"], w))
+    return out
+
+
+def correspondence(ctx):
+    import warnings
+    warnings.simplefilter("ignore", RuntimeWarning)
+    corr_select(ctx)
+    corr_dispatch(ctx)
+    corr_proj(ctx)
+    corr_order(ctx)
+    scenes = [dict(w["scene"], stream="W", placement="witness") for _, w in load_witnesses()]
+    scenes += scenes_for_corr(ctx, ctx.budget(2, 20))
+    scenes += [closed_form_scene(ctx.rng, ctx.rng.choice(["L", "G"])) for _ in range(ctx.budget(60, 600))]
+    corr_trace(ctx, scenes)
+    corr_orig(ctx, scenes[:ctx.budget(250, 3000)])
+    corr_entry(ctx, scenes[:ctx.budget(120, 1500)])
+
+
+# ============================================================================ search
+def report(ctx, sc, fails):
+    for f in fails:
+        args = {"scene": {k: v for k, v in sc.items() if k in ("a", "b", "truth", "witness_points", "placement", "stream")},
+                "alg": f["alg"], "use_nesterov_acceleration": f["alg"].endswith("1")}
+        exp = {"truth_interval": f["expected"], "tolerance": TOL * scene_L(sc["a"], sc["b"])}
+        if f.get("model_note"):
+            exp["model"] = f["model_note"]
+        fn = {"orig": "gjk_distance_original", "nest": "gjk_nesterov_accelerated",
+              "prim": "gjk_nesterov_accelerated_primitives", "orac": "oracle"}[f["alg"][:4]]
+        ctx.fail("%s [%s, %s x %s]" % (fn, f["alg"], sc["a"]["type"], sc["b"]["type"]), args,
+                 {"kind": f["kind"], "value": f["observed"]}, exp,
+                 "certificate interval (own support values, own membership tests) +- 1e-3*L", finding=f["finding"])
+
+
+def search(ctx):
+    import warnings
+    warnings.simplefilter("ignore", RuntimeWarning)
+    pending = []
+    t_end = ctx.t0 + ctx.budget(135, 840)
+    boost = 2 if ctx.extra.get("search_boost") else 1
+
+    def run(sc, stream):
+        fails, (lo, up, L) = judge(sc)
+        ctx.count("search:" + stream, key=(str(sc["a"]), str(sc["b"])),
+                  nontrivial=True, sample={"pair": [sc["a"]["type"], sc["b"]["type"]],
+                                           "placement": sc.get("placement"), "truth": [lo, up]})
+        if up - lo > TIGHT * L:
+            ctx.extra["loose_intervals"] = ctx.extra.get("loose_intervals", 0) + 1
+        for f in fails:
+            pending.append((sc, f))
+
+    # 1. recorded witnesses first
+    for fid, w in load_witnesses():
+        run(dict(w["scene"], placement="witness", stream="W"), "W")
+    # 2. constructed closed forms
+    for _ in range(ctx.budget(600, 6000) * boost):
+        st = ctx.rng.choice(["L", "G"])
+        run(closed_form_scene(ctx.rng, st), st)
+    # 3. every ordered type pair: lattice and general placements, overlapping pairs, wild aspect ratios
+    reps = ctx.budget(16, 80) * boost
+    for rep in range(reps):
+        for ta in ALLTYPES:
+            for tb in ALLTYPES:
+                if ctx.tier == "quick" and (ctx.rng.random() < 0.0 or __import__("time").time() > t_end):
+                    break
+                st = "L" if rep % 2 == 0 else "G"
+                run(gen_scene(ctx.rng, ta, tb, st, wild=(st == "G" and rep % 4 == 3)), st)
+                if rep % 4 == 1:
+                    run(overlap_scene(ctx.rng, ta, tb), "G")
+    confirm_with_model(pending)
+    ctx.extra["failures_by_finding"] = {}
+    for sc, f in pending:
+        key = f["finding"] or "unclassified"
+        ctx.extra["failures_by_finding"][key] = ctx.extra["failures_by_finding"].get(key, 0) + 1
+    # unclassified first so that the replay file names a new violation, not a known one
+    pending.sort(key=lambda p: 0 if p[1]["finding"] is None else 1)
+    seen_cls = {}
+    for sc, f in pending:
+        cls = (f["finding"], f["alg"], sc["a"]["type"], sc["b"]["type"])
+        seen_cls[cls] = seen_cls.get(cls, 0) + 1
+        if f["finding"] is not None and seen_cls[cls] > 2:
+            continue       # enough examples of this recorded class
+        report(ctx, sc, [f])
+    ctx.extra["failure_classes"] = {"%s|%s|%s|%s" % k: v for k, v in sorted(seen_cls.items(), key=str)}
+
+
+def replay(ctx, payload):
+    import warnings
+    warnings.simplefilter("ignore", RuntimeWarning)
+    args = payload.get("args") or {}
+    sc = args.get("scene")
+    if sc is None:
+        for b in payload.get("broken", []):
+            si = b.get("seed_input") or {}
+            if "scene" in si:
+                sc = si["scene"]
+                break
+    if sc is None:
+        print("replay file names no scene:", str(payload.get("broken"))[:500])
+        return False
+    fails, (lo, up, L) = judge(dict(sc))
+    confirm_with_model([(sc, f) for f in fails])
+    print("scene: %s x %s, L = %g, true distance in [%r, %r], tolerance %g" % (sc["a"]["type"], sc["b"]["type"], L, lo, up, TOL * L))
+    for alg in ALGS:
+        if accepts(alg, sc["a"], sc["b"]):
+            r = call_alg(alg, sc["a"], sc["b"], trace=False)
+            print("  %-6s -> %s" % (alg, {k: (v.tolist() if hasattr(v, "tolist") else v) for k, v in r.items() if k != "notes"}))
+    for f in fails:
+        print("FAIL %s: %s observed %s expected %s finding=%s %s" % (f["alg"], f["kind"], f["observed"], f["expected"],
+                                                                   f["finding"], f.get("model_note", "")))
+    return not fails
